@@ -49,7 +49,9 @@ var (
 )
 
 // Key is the hop-field MAC key of the local AS.
-func Key() []byte { return control.DeriveHFMacKey(master) }
+func Key() []byte { return derivedKey }
+
+var derivedKey = control.DeriveHFMacKey(master)
 
 // Config returns the router configuration. withSibling adds interface 3 (sibling owned).
 func Config(opener any, batch int, withSibling, detached, scmpAuth bool) router.VerifConfig {
@@ -114,12 +116,8 @@ func Build(s Spec) []byte {
 		{ConsIngress: 42, ConsEgress: 43, ExpTime: 63, Mac: [6]byte{2, 2, 3, 4, 5, 6}},
 		{ConsIngress: 44, ConsEgress: 0, ExpTime: 63, Mac: [6]byte{3, 2, 3, 4, 5, 6}},
 	}
-	// In traversal order the local hop is at index cur.
 	cur := s.Pos
-	idx := cur // index in construction order
-	if !s.ConsDir {
-		idx = 2 - cur
-	}
+	idx := cur // hop fields are stored in traversal order whatever the construction direction
 	local := path.HopField{ConsIngress: s.In, ConsEgress: s.Eg, ExpTime: 63}
 	if s.Alert {
 		if s.ConsDir {
@@ -132,7 +130,7 @@ func Build(s Spec) []byte {
 	if s.BadMAC {
 		local.Mac[0] ^= 0xff
 	}
-	if !s.ConsDir && s.Via != 0 {
+	if !s.ConsDir && (s.Via == 1 || s.Via == 2) {
 		// against construction direction the ingress router folds the MAC into SegID first
 		info.SegID = beta ^ binary.BigEndian.Uint16(local.Mac[:2])
 		if s.BadMAC {
